@@ -31,6 +31,10 @@ func genCase(t *rapid.T) replay.Case {
 	c.Cfg = gen.GenOutCfg(t, &yes, nil)
 	c.Cmds = gen.GenStream(t, c.Cfg, gen.StreamOpts{MaxCmds: 22, TxnBias: 3, SelectBias: 2})
 	c.Sched = gen.GenSchedule(t, c.Cfg, false)
+	if rapid.IntRange(0, 4).Draw(t, "pingIdle") == 0 {
+		// an idle master: keep-alive PINGs surrounded by idle time, in front of SELECT / MULTI
+		c.Cmds, c.Sched = gen.PingIdle(t, c.Cfg, c.Cmds)
+	}
 	// keep the enumeration cheap: at most two short idle gaps
 	if len(c.Sched.Pauses) > 2 {
 		c.Sched.Pauses = c.Sched.Pauses[:2]
